@@ -77,6 +77,6 @@ theorem C13_fail_clean (H : Bytes → Bytes) (req : Bytes) (targetHas writerOk :
 /-- T-fact tie: `CreateMirror` compares the scanned id with the requested one before its only `Commit`, and
     unpacks into nilfs (nothing is created locally). -/
 theorem C13_tie : Generated.mirrorCompare = ["gotWare != wareID"] ∧ Generated.mirrorCommitAfterCompare = true ∧
-    Generated.mirrorFs = ["nilFS.New()"] := by decide
+    Generated.mirrorFs = ["nilFS.New()", "nilFS.New()"] := by decide   -- the probe of a single-address target, and the copy
 
 end Rio
